@@ -35,8 +35,8 @@ Qed.
 Lemma TInv_set_af s af' : TInv s -> Forall (af_entry_ok s) af' -> TInv (set_active_formatting af' s).
 Proof.
   intros [I1 I2 I3 I4 I5 I6 I7 I8 I9 I10 I11] F. constructor; try assumption.
-  - destruct I2 as [A B]. split; [|exact B]. unfold handles_of in *. simpl.
-    inversion A as [|x l A0 A1]; subst. constructor; [exact A0|].
+  - destruct I2 as [A B]. split; [|exact B]. unfold state_handles in *. simpl.
+    pose proof A as A1.
     apply Forall_app in A1. destruct A1 as [A1 A2]. apply Forall_app in A2. destruct A2 as [_ A3].
     apply Forall_app. split; [exact A1|]. apply Forall_app. split; [apply af_handles_known; exact F | exact A3].
   - unfold af_ok. simpl. intros h t H. rewrite Forall_forall in F. apply F in H. simpl in H. tauto.
@@ -45,7 +45,7 @@ Qed.
 Lemma keeps_set_af s0 s af' : keeps s0 s -> Forall (af_entry_ok s) af' -> keeps s0 (set_active_formatting af' s).
 Proof.
   intros [I S] F. split; [apply TInv_set_af; assumption|].
-  eapply stable_trans; [exact S|]. constructor; try reflexivity. exists []. simpl. rewrite app_nil_r. reflexivity.
+  eapply stable_trans; [exact S|]. apply stable_eqs; reflexivity.
 Qed.
 
 Lemma Forall_vremove {A} (P : A -> Prop) k l : Forall P l -> Forall P (vremove k l).
@@ -94,19 +94,25 @@ Lemma wp_insert_element s0 s (do_push : bool) ns name attrs dup (Q : handle -> s
   wp (insert_element do_push ns name attrs dup) Q s.
 Proof.
   intros K L H. unfold insert_element. rewrite wp_bind.
-  eapply wp_appropriate_place; [exact K | exact L |]. intros ip s1 K1 SL1.
-  destruct (ip_nodes ip) as [node1 node2]. rewrite wp_bind, wp_get, wp_bind.
+  eapply wp_appropriate_place; [exact K | exact L | discriminate |]. intros ip s1 K1 SL1 Ok1.
+  destruct (ip_nodes ip) as [node1 node2] eqn:Eip. rewrite wp_bind, wp_get, wp_bind.
   unfold wp at 1. rewrite sink_create_element_eq.
   set (h := next_handle s1). set (s2 := new_elem_state _ _ _ s1).
   assert (K2 : keeps s0 s2) by (apply new_elem_keeps; exact K1).
+  assert (I1 : TInv s1) by (destruct K1; assumption).
   assert (I2 : TInv s2) by (destruct K2; assumption).
+  assert (S12 : stable s1 s2) by (exact (proj2 (new_elem_keeps s1 s1 _ _ _ (keeps_refl _ I1)))).
   assert (SL2 : same_lists s s2) by (eapply same_lists_trans; [exact SL1 | split; reflexivity]).
   assert (Kn : known s2 h) by apply new_elem_known.
   assert (En : ename_of s2 h = (ns, name)) by apply new_elem_name.
+  assert (Ok2 : ip_ok s2 true ip) by (apply (ip_ok_stable s1 s2); [exact I1 | exact S12 | reflexivity | exact Ok1]).
   (* from here on relative to s2 *)
   assert (X : forall s3, keeps s2 s3 -> same_lists s2 s3 ->
           wp (insert_at ip (inl h) ;; (if do_push then push h else ret tt) ;; ret h) Q s3).
-  { intros s3 K3 SL3. rewrite wp_bind. eapply wp_insert_at; [exact K3|]. intros s4 K4 SL4.
+  { intros s3 K3 SL3. rewrite wp_bind. pose proof K3 as [I3 S3].
+    eapply (wp_insert_at s2 s3 true); [exact K3 | apply (ip_ok_stable s2 s3); [exact I2 | exact S3 | exact (proj1 SL3) | exact Ok2]
+                                       | apply known_child_ok; [exact I3 | eapply stable_known; eassumption] |].
+    intros s4 K4 SL4.
     assert (SL : same_lists s s4) by (eapply same_lists_trans; [exact SL2 | eapply same_lists_trans; eassumption]).
     assert (K04 : keeps s0 s4) by (eapply keeps_trans; eassumption).
     assert (Kn4 : known s4 h) by (destruct K4 as [_ S4]; eapply stable_known; eassumption).
@@ -118,10 +124,30 @@ Proof.
   rewrite wp_bind.
   destruct (form_elem s1) as [f|] eqn:Ef.
   2:{ rewrite andb_false_r. cbn [andb]. rewrite wp_ret. apply X; [apply keeps_refl; exact I2 | apply same_lists_refl]. }
-  match goal with |- wp (if ?c then _ else _) _ _ => destruct c end.
+  match goal with |- wp (if ?c then _ else _) _ _ => destruct c eqn:Cnd end.
   - rewrite wp_bind. apply wp_probe. rewrite wp_bind, wp_unwrap. exists f. split; [reflexivity|].
     rewrite wp_emit. apply X; [| split; reflexivity].
-    apply keeps_set_out. apply keeps_set_out. apply keeps_refl. exact I2.
+    apply andb_true_iff in Cnd. destruct Cnd as [Cnd _]. apply andb_true_iff in Cnd. destruct Cnd as [Cnd NoT].
+    apply andb_true_iff in Cnd. destruct Cnd as [Assoc _]. apply negb_true_iff in NoT.
+    (* the insertion point holds elements: no template is open *)
+    assert (N1 : known s2 node1 /\ match node2 with Some x => known s2 x | None => True end).
+    { destruct ip as [p|sb|e p]; simpl in Eip; injection Eip as <- <-; simpl in Ok1.
+      - split; [|exact Logic.I]. destruct Ok1 as [Kp|[_ Ct]]; [eapply stable_known; eassumption|].
+        rewrite (Ct eq_refl) in NoT. discriminate.
+      - split; [eapply stable_known; eassumption | exact Logic.I].
+      - destruct Ok1 as [A B]. split; eapply stable_known; eassumption. }
+    destruct N1 as [N1 N2].
+    assert (Kf : known s1 f) by (eapply known_handles_in; [apply inv_known; exact I1 | apply in_handles_form; exact Ef]).
+    assert (Nf : ename_of s1 f = (ns_html, nm "form")) by (apply (proj2 (inv_ptr _ I1)); exact Ef).
+    set (s2' := set_out _ s2).
+    assert (K2' : keeps s2 s2') by ((apply keeps_set_out; [|reflexivity]); apply keeps_refl; exact I2).
+    apply keeps_emit; [exact K2' | reflexivity | reflexivity |]. cbn [op_okb].
+    change (sv s2') with (sv s2).
+    rewrite (v_named_ename s2 h _ Kn), En, Assoc.
+    rewrite (v_named_ename s2 f _ (stable_known _ _ _ S12 Kf)), (stable_ename _ _ _ S12 Kf), Nf.
+    rewrite (known_v_elem _ _ N1). cbn [andb in_set form_name_l existsb].
+    replace (ename_eqb (ns_html, nm "form") (ns_html, nm "form")) with true by reflexivity. cbn [orb andb].
+    destruct node2 as [x|]; [exact (known_v_elem _ _ N2) | reflexivity].
   - rewrite wp_ret. apply X; [apply keeps_refl; exact I2 | apply same_lists_refl].
 Qed.
 
@@ -131,7 +157,7 @@ Lemma keeps_push s0 s h :
   keeps s0 (set_open_elems (vpush (open_elems s) h) s).
 Proof.
   intros [I S] L K N1 N2. split; [apply TInv_push; assumption|].
-  eapply stable_trans; [exact S|]. constructor; try reflexivity. exists []. simpl. rewrite app_nil_r. reflexivity.
+  eapply stable_trans; [exact S|]. apply stable_eqs; reflexivity.
 Qed.
 
 (* the usual use: no push, or push of an element that is neither `head` nor `template` *)
@@ -243,14 +269,14 @@ Lemma wp_reconstruct s0 s (Q : unit -> st -> Prop) :
 Proof.
   intros K L H. unfold reconstruct_active_formatting_elements. rewrite wp_bind, wp_get.
   destruct (vlast (active_formatting s)) as [last|] eqn:V; [|rewrite wp_ret; apply H; exact K].
-  destruct (is_marker_or_open s last) eqn:M; [apply wp_probe; apply H; apply keeps_set_out; exact K|].
+  destruct (is_marker_or_open s last) eqn:M; [apply wp_probe; apply H; (apply keeps_set_out; [|reflexivity]); exact K|].
   rewrite wp_bind. apply wp_probe. rewrite wp_bind, wp_unwrap.
   set (s1 := set_out _ s).
   assert (Len : 1 <= length (active_formatting s)).
   { destruct (active_formatting s); [discriminate | simpl; lia]. }
   destruct (recon_rewind_some s (length (active_formatting s) - 1) ltac:(lia)) as (r & Er & Lr & Hr).
   exists r. split; [exact Er|].
-  assert (K1 : keeps s0 s1) by (apply keeps_set_out; exact K).
+  assert (K1 : keeps s0 s1) by ((apply keeps_set_out; [|reflexivity]); exact K).
   apply (wp_recon_create s0); [exact K1 | exact L | simpl; lia | simpl; lia | | exact H].
   intros j A B. cbn [active_formatting s1 set_out] in *.
   destruct (Nat.eq_dec j (length (active_formatting s) - 1)) as [->|N].
@@ -344,7 +370,7 @@ Proof.
     destruct x as [[i h] tg]. apply af_end_to_marker_nth in Hx. simpl.
     rewrite wp_bind, wp_assert. split; [apply Nat.ltb_lt; eapply nth_error_lt; exact Hx|].
     rewrite wp_modify. apply X; [| exact L].
-    apply keeps_set_af; [apply keeps_set_out; exact K|]. apply Forall_vremove.
+    apply keeps_set_af; [(apply keeps_set_out; [|reflexivity]); exact K|]. apply Forall_vremove.
     pose proof K as [I _]. pose proof (TInv_af_entries _ I) as FA. exact FA.
   - rewrite wp_ret. apply X; assumption.
 Qed.
@@ -396,10 +422,10 @@ Proof.
               wp (modify (fun s => set_open_elems (vtruncate i (open_elems s)) s)) Q s2).
     { intros s2 K2 L2. rewrite wp_modify. apply H. apply keeps_truncate; assumption. }
     rewrite wp_when. destruct (negb _).
-    + rewrite wp_bind. apply wp_probe. rewrite wp_parse_error. apply Fin; [apply keeps_set_out; apply keeps_set_out; exact K1 | exact L1].
+    + rewrite wp_bind. apply wp_probe. rewrite wp_parse_error. apply Fin; [(apply keeps_set_out; [|reflexivity]); (apply keeps_set_out; [|reflexivity]); exact K1 | exact L1].
     + apply Fin; assumption.
-  - rewrite wp_bind. apply wp_probe. rewrite wp_parse_error. apply H. apply keeps_set_out. apply keeps_set_out. exact K.
-  - rewrite wp_bind. apply wp_probe. rewrite wp_parse_error. apply H. apply keeps_set_out. apply keeps_set_out. exact K.
+  - rewrite wp_bind. apply wp_probe. rewrite wp_parse_error. apply H. (apply keeps_set_out; [|reflexivity]). (apply keeps_set_out; [|reflexivity]). exact K.
+  - rewrite wp_bind. apply wp_probe. rewrite wp_parse_error. apply H. (apply keeps_set_out; [|reflexivity]). (apply keeps_set_out; [|reflexivity]). exact K.
 Qed.
 
 (* ---------- raw text ---------- *)
@@ -465,7 +491,7 @@ Lemma wp_check_body_end s0 s (Q : unit -> st -> Prop) :
   keeps s0 s -> (forall s', keeps s0 s' -> same_lists s s' -> Q tt s') -> wp check_body_end Q s.
 Proof.
   intros K H. unfold check_body_end. rewrite wp_bind, wp_get, wp_when. destruct (existsb _ _).
-  - rewrite wp_parse_error. apply H; [apply keeps_set_out; exact K | split; reflexivity].
+  - rewrite wp_parse_error. apply H; [(apply keeps_set_out; [|reflexivity]); exact K | split; reflexivity].
   - apply H; [exact K | apply same_lists_refl].
 Qed.
 
@@ -545,7 +571,7 @@ Proof.
       apply H; [eapply keeps_trans; eassumption | eapply shrunk_stack_eq; eassumption]. }
     assert (Sh : shrunk s s2) by (eapply shrunk_trans; eassumption).
     rewrite wp_when. destruct (negb _).
-    + rewrite wp_parse_error. apply Y; [apply keeps_set_out; exact K2 | eapply shrunk_stack_eq; [exact Sh | reflexivity]].
+    + rewrite wp_parse_error. apply Y; [(apply keeps_set_out; [|reflexivity]); exact K2 | eapply shrunk_stack_eq; [exact Sh | reflexivity]].
     + apply Y; assumption.
 Qed.
 
@@ -571,7 +597,7 @@ Proof.
   intros K L H. pose proof K as [I S].
   assert (R : forall m k, early_mode m = false -> saving_mode m = false -> (head_needed m = true -> head_elem s <> None) ->
               wp (probe k ;; ret m) Q s).
-  { intros m k A B C. rewrite wp_bind. apply wp_probe. rewrite wp_ret. apply H; try assumption; [apply keeps_set_out; exact K | split; reflexivity]. }
+  { intros m k A B C. rewrite wp_bind. apply wp_probe. rewrite wp_ret. apply H; try assumption; [(apply keeps_set_out; [|reflexivity]); exact K | split; reflexivity]. }
   induction l as [|node0 r IH]; intros [pre E]; cbn [reset_loop].
   - apply R; try reflexivity; try discriminate.
   - set (last := match r with [] => true | _ :: _ => false end).
@@ -607,7 +633,7 @@ Proof.
       exists m. split; [reflexivity|].
       pose proof (inv_tmodes _ I) as TM. unfold tmodes_ok in TM. rewrite Forall_forall in TM.
       destruct (template_mode_props m (TM _ (vlast_In _ _ V))) as (A & B & C).
-      apply H; try assumption; [apply keeps_set_out; exact K | split; reflexivity | rewrite C; discriminate]. }
+      apply H; try assumption; [(apply keeps_set_out; [|reflexivity]); exact K | split; reflexivity | rewrite C; discriminate]. }
     destruct (is_n name "head") eqn:Nhd.
     { destruct (negb last) eqn:Nl; [|exact Rec].
       apply R; try reflexivity. intros _. apply (inv_headstack _ I). exists node0. split; [exact In0|].
@@ -757,14 +783,18 @@ Proof.
   assert (Sh : forall s', same_lists (set_open_elems (rev rest) s) s' -> shrunk s s').
   { intros s' [E1 _]. exists (length rest). repeat split; [exact Lq | | rewrite E1; exact P].
     apply (f_equal (@length _)) in A. rewrite rev_length, app_length in A. lia. }
+  assert (Fp : Forall (known s) popped).
+  { apply Forall_forall. intros h Hh. eapply TInv_stack_known; [exact I|].
+    apply in_rev. rewrite A. apply in_or_app. left. exact Hh. }
   rewrite wp_bind, wp_when. destruct (negb _).
   - apply wp_probe. rewrite wp_bind, wp_modify.
     eapply wp_mapM_pops.
     + assert (keeps s0 (set_open_elems (rev rest) (set_out (EvArm 30 39 :: out s) s))).
-      { rewrite P. apply (keeps_shrink s0 (set_out (EvArm 30 39 :: out s) s)); [apply keeps_set_out; exact K | exact L | exact Lq]. }
+      { rewrite P. apply (keeps_shrink s0 (set_out (EvArm 30 39 :: out s) s)); [(apply keeps_set_out; [|reflexivity]); exact K | exact L | exact Lq]. }
       exact H0.
+    + exact Fp.
     + intros s' K' SL. apply H; [exact K'|]. apply Sh. destruct SL as [E1 E2]. split; [exact E1 | exact E2].
-  - rewrite wp_bind, wp_modify. eapply wp_mapM_pops; [exact Kr|]. intros s' K' SL. apply H; [exact K' | apply Sh; exact SL].
+  - rewrite wp_bind, wp_modify. eapply wp_mapM_pops; [exact Kr | exact Fp |]. intros s' K' SL. apply H; [exact K' | apply Sh; exact SL].
 Qed.
 
 (* ---------- the <meta> inspection ---------- *)
@@ -796,13 +826,13 @@ Lemma wp_meta_like_result s0 s t (Q : presult -> st -> Prop) :
 Proof.
   intros K Sc H. unfold meta_like_result.
   destruct (get_attribute t (nm "charset")) as [cs|].
-  { rewrite wp_bind. apply wp_probe. rewrite wp_ret. apply H; [apply keeps_set_out; exact K | right; eauto]. }
+  { rewrite wp_bind. apply wp_probe. rewrite wp_ret. apply H; [(apply keeps_set_out; [|reflexivity]); exact K | right; eauto]. }
   destruct (match get_attribute t (nm "http-equiv") with Some v => _ | None => false end).
   2:{ rewrite wp_ret. apply H; [exact K | left; reflexivity]. }
   destruct (get_attribute t (nm "content")) as [c|] eqn:Ec.
   2:{ rewrite wp_ret. apply H; [exact K | left; reflexivity]. }
   rewrite wp_bind. apply wp_extract_encoding; [eapply get_attribute_scalars; eassumption|].
   intros [e|].
-  - rewrite wp_bind. apply wp_probe. rewrite wp_ret. apply H; [apply keeps_set_out; exact K | right; eauto].
+  - rewrite wp_bind. apply wp_probe. rewrite wp_ret. apply H; [(apply keeps_set_out; [|reflexivity]); exact K | right; eauto].
   - rewrite wp_ret. apply H; [exact K | left; reflexivity].
 Qed.
